@@ -103,6 +103,20 @@ def par_loops(ir):
     return out
 
 
+def alloc_free(stmts):
+    """no Alloc in the statements, callees included (the hypothesis of theorem C09_perm_core)"""
+    for s in stmts:
+        if isinstance(s, LoopIR.Alloc):
+            return False
+        if isinstance(s, LoopIR.If) and not (alloc_free(s.body) and alloc_free(s.orelse)):
+            return False
+        if isinstance(s, LoopIR.For) and not alloc_free(s.body):
+            return False
+        if isinstance(s, LoopIR.Call) and not alloc_free(s.f.body):
+            return False
+    return True
+
+
 def compile_observed(procedure):
     """-> dict(outcome = 'accept' | 'reject-par' | 'error:<Type>', msg, c, calls, runs)"""
     with Observer() as obs:
